@@ -56,6 +56,9 @@ def make_table(rng, kind):
         base = rng.sample(['apple', 'bee', 'cat', 'dog', 'eel', 'fox'], 5)
         keys = base + rng.sample(base, 3)
         rng.shuffle(keys)
+    elif kind == 'digit_text':
+        # texts made of digits are texts: '007', '07' and '7' differ, and their order is the order of texts ('10' < '2' < '9')
+        keys = sorted(rng.sample(['007', '07', '7', '10', '2', '9', '100', '31', '0', '00', '25', '250'], n))
     elif kind == 'with_blanks':
         keys = rng.sample(range(1, 40), n)
         for i in rng.sample(range(n), 2):
@@ -75,6 +78,8 @@ def make_table(rng, kind):
 def lookups_for(rng, kind, keys):
     real = [k for k in keys if k is not None]
     out = list(dict.fromkeys(real))
+    if kind == 'digit_text':
+        return out + ['0007', '3', '1', '99', '8', '70', '000', '26', 7, 10]
     if kind.startswith('text'):
         out += ['aardvark', 'zebra', 'cow', 'bee ', 7]
         # the same keys in another case: text keys match without regard to case in every lookup function
@@ -92,7 +97,7 @@ def lookups_for(rng, kind, keys):
     return out
 
 
-KINDS = ['asc_int', 'asc_float', 'asc_dup', 'unsorted', 'unsorted_dup', 'text', 'text_unsorted_dup', 'with_blanks', 'mixed_int_float']
+KINDS = ['asc_int', 'asc_float', 'asc_dup', 'unsorted', 'unsorted_dup', 'text', 'text_unsorted_dup', 'with_blanks', 'mixed_int_float', 'digit_text']
 
 
 def classify(case, out, outs):
